@@ -152,6 +152,10 @@ pub enum OpKind {
     ListDir {
         dir: String,
     },
+    /// harness-side removal of a file (e.g. the cursor index, to read the physical log)
+    RemoveFile {
+        path: String,
+    },
 }
 
 impl OpKind {
